@@ -74,6 +74,22 @@ let put_words (b : n list) (tokens : bool) : string =
     go b; Buffer.contents buf
   end
 
+(* a token "[P<i>]", "[R<n>]", "[R<n>+k]" or "[R<n>-k]" (the text between the brackets): value (32 bits), is it a
+   relative form, is the base known, base index, offset.  A relative token names an id the peer has not seen on
+   the wire (ids are consecutive, hence predictable): the id of a request abandoned before it was transmitted,
+   or of one that is still queued.  An unknown base gives 0 in every form (as harness/wb_proto.c). *)
+let tok_value (t : string) : int * bool * bool * int * int =
+  let body = String.sub t 1 (String.length t - 1) in
+  let cut = (try Some (String.index body '+') with Not_found -> (try Some (String.index body '-') with Not_found -> None)) in
+  let (bs, off, arith) = (match cut with
+    | Some i when t.[0] = 'R' -> (int_of_string (String.sub body 0 i), int_of_string (String.sub body i (String.length body - i)), true)
+    | _ -> (int_of_string body, 0, false)) in
+  match t.[0] with
+  | 'P' -> if bs >= 0 && bs < Array.length !pipes then (int_of_n (!pipes).(bs).pidn, false, true, bs, 0) else (0, false, false, bs, 0)
+  | 'R' -> if bs >= 0 && bs < List.length !rids then ((int_of_n (List.nth !rids bs) + off) land 0xffffffff, arith, true, bs, off)
+           else (0, arith, false, bs, off)
+  | _ -> (0, false, false, bs, 0)
+
 let untok (s : string) : n list =
   if s = "-" then [] else begin
     let out = ref [] in
@@ -82,11 +98,7 @@ let untok (s : string) : n list =
     while !i < n do
       if s.[!i] = '[' then begin
         let j = String.index_from s !i ']' in
-        let k = int_of_string (String.sub s (!i + 2) (j - !i - 2)) in
-        let v = (match s.[!i + 1] with
-                 | 'P' -> if k < Array.length !pipes then int_of_n (!pipes).(k).pidn else 0
-                 | 'R' -> if k < List.length !rids then int_of_n (List.nth !rids k) else 0
-                 | _ -> 0) in
+        let (v, _, _, _, _) = tok_value (String.sub s (!i + 1) (j - !i - 1)) in
         out := List.rev_append (be32 v) !out;
         i := j + 1
       end else begin
@@ -96,6 +108,32 @@ let untok (s : string) : n list =
     done;
     List.rev !out
   end
+
+(* canonical spelling of a tokenised hex string (as canon_tok of harness/wb_proto.c): a relative token whose
+   value is a request id already seen on the wire is spelt [R<m>], one that names no seen id keeps its relative
+   spelling, an unknown base is 00000000; None if the string has no relative token *)
+let canon_tok (s : string) : string option =
+  let buf = Buffer.create 32 in
+  let any = ref false in
+  let i = ref 0 in
+  let n = String.length s in
+  while !i < n do
+    if s.[!i] = '[' then begin
+      let j = (try String.index_from s !i ']' with Not_found -> n - 1) in
+      let (v, arith, known, bs, off) = tok_value (String.sub s (!i + 1) (j - !i - 1)) in
+      if arith then begin
+        any := true;
+        if not known then Buffer.add_string buf "00000000"
+        else begin
+          let r = index_of (n_of_int v) !rids 0 in
+          if r >= 0 then Buffer.add_string buf (Printf.sprintf "[R%d]" r)
+          else Buffer.add_string buf (Printf.sprintf "[R%d%+d]" bs off)
+        end
+      end else Buffer.add_string buf (String.sub s !i (j - !i + 1));
+      i := j + 1
+    end else (Buffer.add_char buf s.[!i]; incr i)
+  done;
+  if !any then Some (Buffer.contents buf) else None
 
 let msg_str (m : pmsg) = put_words m.pm_hdr true ^ "/" ^ put_words m.pm_body false
 
@@ -190,7 +228,8 @@ let observe (rv : int) (extra : string) =
       (match p.tx with
        | m :: _ when (Hashtbl.find socks p.sock).idgen && List.length m.pm_hdr = 4 ->
            let v = word_of_bytes m.pm_hdr in
-           if index_of v !rids 0 < 0 then rids := !rids @ [v]
+           (* request / survey ids have the high bit set (as harness/wb_proto.c) *)
+           if int_of_n v land 0x80000000 <> 0 && index_of v !rids 0 < 0 then rids := !rids @ [v]
        | _ -> ());
       Buffer.add_string buf (Printf.sprintf "p%d:%c:t%d:%s:r%di%d" i p.st (List.length p.tx)
         (match p.tx with m :: _ -> msg_str m | [] -> "-") p.armed (List.length p.inbox))
@@ -266,7 +305,9 @@ let main () =
           let i = idx p in
           if i < Array.length !pipes && (!pipes).(i).st = 'o' then begin
             let pp = (!pipes).(i) in
-            pp.inbox <- pp.inbox @ [untok h]; match_inbox pp.sock pp; observe 0 ""
+            let bytes = untok h in
+            let canon = (match canon_tok h with Some c -> "inj=" ^ c | None -> "") in
+            pp.inbox <- pp.inbox @ [bytes]; match_inbox pp.sock pp; observe 0 canon
           end else observe 12 ""
       | "drop" :: p :: _ ->
           let i = idx p in
